@@ -155,13 +155,88 @@ theorem frame_newSpecialSymbol (sh0 sh : Shared D L) (c0 : CompEditor) (sym : Sy
   · exact frame_panic _ _ _
   · exact frame_fuel _ _
 
+/-! ### `open_symbol` / `open_special_symbol` (FX1 repair): `new_symbol` / `new_special_symbol`, or — for a
+list without candidates (no symbol table) — the request ignored (the saved cursor restored).  Generic case
+lemmas, used by every frame family. -/
+
+/-- the two ways `open_symbol` returns: the symbol table opened, or (an empty table) ignored; the shared
+    state is untouched either way -/
+theorem openSymbol_cases {sh sh' : Shared D L} {t : Trans} (h : openSymbol env sh = .ok (sh', t)) :
+    sh' = sh ∧ (t = .toState (.selecting (newSymbol sh)) ∨ t = .spin .ignore) := by
+  unfold openSymbol at h
+  split at h
+  · injection h with h; injection h with h1 h2; exact ⟨h1.symm, .inr h2.symm⟩
+  · injection h with h; injection h with h1 h2; exact ⟨h1.symm, .inl h2.symm⟩
+  · cases h
+  · cases h
+
+theorem frame_openSymbol (sh : Shared D L) (c0 : CompEditor) : Frame sh c0 (openSymbol env sh) := by
+  intro sh' t h
+  obtain ⟨rfl, rfl | rfl⟩ := openSymbol_cases env h
+  · exact ⟨fun c => (by cases c), fun c => (by cases c)⟩
+  · exact ⟨fun _ => rfl, fun c => (by cases c)⟩
+
+/-- what `new_special_symbol` returns: the cursor saved and clamped, a list (special symbols, or the symbol
+    table to replace the character) -/
+theorem newSpecialSymbol_shape {sh sh' : Shared D L} {sym : Sym} {t : Trans}
+    (h : newSpecialSymbol sh sym = .ok (sh', t)) :
+    sh' = { sh with com := sh.com.pushCursor.clampCursor } ∧
+    (t = .toState (.selecting { newSymbol { sh with com := sh.com.pushCursor.clampCursor } with action := .replace }) ∨
+     t = .toState (.selecting { pageNo := 0, action := .replace, sel := .special sym })) := by
+  unfold newSpecialSymbol at h
+  simp only at h
+  split at h
+  · injection h with h; injection h with h1 h2; exact ⟨h1.symm, .inl h2.symm⟩
+  · injection h with h; injection h with h1 h2; exact ⟨h1.symm, .inr h2.symm⟩
+  · cases h
+  · cases h
+
+/-- the two ways `open_special_symbol` returns: as `new_special_symbol` did (a list with candidates), or
+    ignored with the saved cursor popped again -/
+theorem openSpecialSymbol_cases {sh sh' : Shared D L} {sym : Sym} {t : Trans}
+    (h : openSpecialSymbol env sh sym = .ok (sh', t)) :
+    (newSpecialSymbol sh sym = .ok (sh', t) ∧ ∃ s, t = .toState (.selecting s)) ∨
+    (t = .spin .ignore ∧ sh' = Shared.cancelSelecting { sh with com := sh.com.pushCursor.clampCursor }) := by
+  unfold openSpecialSymbol at h
+  split at h
+  · next sh1 s hn =>
+    split at h
+    · injection h with h; injection h with h1 h2
+      exact .inr ⟨h2.symm, by rw [← h1, (newSpecialSymbol_shape hn).1]⟩
+    · injection h with h; injection h with h1 h2
+      exact .inl ⟨by rw [hn, ← h1, ← h2], s, h2.symm⟩
+    · cases h
+    · cases h
+  · next hne =>
+    obtain ⟨_, hs | hs⟩ := newSpecialSymbol_shape h
+    · exact absurd (hs ▸ h) (hne _ _)
+    · exact absurd (hs ▸ h) (hne _ _)
+
+/-- … with the cursor inside the buffer the ignored request returns the shared state untouched -/
+theorem openSpecialSymbol_ignore {sh sh' : Shared D L} {sym : Sym} {t : Trans} (hc : sh.com.cursor ≤ sh.com.inner.len)
+    (h : openSpecialSymbol env sh sym = .ok (sh', t)) :
+    (newSpecialSymbol sh sym = .ok (sh', t) ∧ ∃ s, t = .toState (.selecting s)) ∨ (t = .spin .ignore ∧ sh' = sh) := by
+  rcases openSpecialSymbol_cases env h with h1 | ⟨h1, h2⟩
+  · exact .inl h1
+  · refine .inr ⟨h1, ?_⟩
+    rw [h2]
+    unfold Shared.cancelSelecting
+    simp only [pop_push_clamp _ hc]
+
+theorem frame_openSpecialSymbol (sh : Shared D L) (c0 : CompEditor) (sym : Sym) (hc : sh.com.cursor ≤ sh.com.inner.len) :
+    Frame sh c0 (openSpecialSymbol env sh sym) := by
+  intro sh' t h
+  rcases openSpecialSymbol_ignore env hc h with ⟨_, s, rfl⟩ | ⟨rfl, rfl⟩
+  · exact ⟨fun c => (by cases c), fun c => (by cases c)⟩
+  · exact ⟨fun _ => rfl, fun c => (by cases c)⟩
+
 theorem frame_startSelecting (sh : Shared D L) : Frame sh sh.com (startSelecting env sh) := by
   unfold startSelecting
   split
   · next sym hs =>
     split
     · exact frame_openPhrase env _ _ (cursor_le_of_symbolForSelect hs)
-    · exact frame_newSpecialSymbol _ _ _ _
+    · exact frame_openSpecialSymbol env _ _ _ (cursor_le_of_symbolForSelect hs)
   · frame_leaf
 
 theorem frame_startSelectingOrInputSpace (sh : Shared D L) :
@@ -171,7 +246,7 @@ theorem frame_startSelectingOrInputSpace (sh : Shared D L) :
   · next sym hs =>
     split
     · exact frame_openPhrase env _ _ (cursor_le_of_symbolForSelect hs)
-    · exact frame_newSpecialSymbol _ _ _ _
+    · exact frame_openSpecialSymbol env _ _ _ (cursor_le_of_symbolForSelect hs)
   · repeat' split
     all_goals frame_leaf
 
@@ -222,6 +297,7 @@ theorem frame_enteringDefault (sh : Shared D L) (ev : KeyEvent) :
     | exact frame_inputChar _ _ _
     | exact frame_chineseFallback _ _ _
     | exact frame_chineseFallback sh { sh with syl := (env.keyPress sh.syl ev).2 } ev
+    | exact frame_openSymbol env _ _
     | frame_leaf
 
 theorem frame_enteringBackspace (sh : Shared D L) : Frame sh sh.com (enteringBackspace sh) := by
@@ -235,6 +311,7 @@ theorem frame_enteringCtrlDigit (sh : Shared D L) (c : Nat) : Frame sh sh.com (e
   repeat' (first | split | (dsimp only; split))
   all_goals first
     | exact frame_learnTrans env _ _ _ _
+    | exact frame_openSymbol env _ _
     | frame_leaf
 
 theorem frame_enteringTabInside (sh : Shared D L) : Frame sh sh.com (enteringTabInside env sh) := by
